@@ -19,7 +19,7 @@ class InitManaged:
         return self.items
 
 
-def with_watchdog(fn, seconds=20):
+def with_watchdog(fn, seconds=60):
     box = {}
 
     def run():
@@ -77,7 +77,7 @@ def managed_in_constructor():
 def main():
     import os
     for name, fn in (('custom_authkey_nested', custom_authkey_nested), ('managed_in_constructor', managed_in_constructor)):
-        r = with_watchdog(fn, 40)
+        r = with_watchdog(fn, 120)
         print(f'SCENARIO {name} ' + ('OK' if r is True else f'FAIL {r}'), flush=True)
     os._exit(0)
 
